@@ -2,6 +2,8 @@ import Lemmas.RateLimiterWitness
 import Lemmas.RateLimiterCapMax
 import Lemmas.RateLimiterBounds
 import Lemmas.RateLimiterExec
+import Lemmas.RateLimiterInt
+import Lemmas.RateLimiterAnswers
 /-! # C16 — the rate limiter never grants more than any applicable cap and never hangs
 
 Property theorems only.  The model is `Model/RateLimiter.lean`: the transition relation `RL.Step`, in which
@@ -437,6 +439,118 @@ theorem ticker_never_blocked (c : Nat) (s : S) (h : Reachable c s) :
     · exact Or.inr ⟨hf, lock_released h hf⟩
   · exact fun ht => .tickRuns s ht (h1.mpr (Or.inl ht))
   · exact fun ht => .drain s ht (h1.mpr (Or.inr (Or.inr (Or.inl ht))))
+
+/-- **the code's machine arithmetic is the model's arithmetic** (`Model/RateLimiterInt.lean` transcribes limiter.go:74-88
+    and 190-205 in Go's wrapping 64-bit `int`, expression by expression): in every reachable state whose capacities are
+    Go `int`s, for every limiter and every amount, the test `available >= amount` — `available` the minimum of
+    `capacity - used` along the chain, every subtraction wrapping — decides exactly what the model's `fits` decides;
+    the ticker's guard `root.capacity-root.used > 0` is `used < capacity`; and after a successful test `used += amount`
+    yields the model's `charge` for every limiter (no wrap).  This is what `int_arithmetic_exact` only argued in prose. -/
+theorem go_int_arithmetic_is_model_arithmetic (c : Nat) (s : S) (h : Reachable c s) (hty : s.capHi ≤ maxInt)
+    (l : Nat) (hl : l < s.n) (amt : Nat) :
+    fitsGo s.cap s.used (s.chain l) amt = fits s.cap s.used (s.chain l) amt ∧
+    rootGuardGo s.cap s.used = decide (s.used 0 < s.cap 0) ∧
+    (fits s.cap s.used (s.chain l) amt = true →
+      ∀ x, chargeGo s.used (s.chain l) amt x = ((charge s.used (s.chain l) amt x : Nat) : Int)) := by
+  obtain ⟨hc, hu, _, _⟩ := bounded h
+  have hc' : ∀ x, s.cap x ≤ maxInt := fun x => Nat.le_trans (hc x) hty
+  have hu' : ∀ x, s.used x ≤ maxInt := fun x => Nat.le_trans (hu x) hty
+  have hne : s.chain l ≠ [] := List.ne_nil_of_mem ((tree h).self l hl)
+  exact ⟨fitsGo_eq_fits _ _ _ _ hne (fun x _ => hc' x) (fun x _ => hu' x), rootGuardGo_exact _ _ (hc' 0) (hu' 0),
+         fun hf => chargeGo_exact s.cap _ _ _ (fun x _ => hc' x) hf⟩
+
+/-- **contrast — the sum form of the test wraps** (`seeded/ind6-c16-a`: `p.used+amount > p.capacity` instead of
+    `amount <= p.capacity-p.used`): there is a reachable state with all capacities Go `int`s — a root of capacity
+    `MaxInt` that has granted 10 in the current period — and an amount `MaxInt-5`, itself a Go `int` within the cap, for
+    which the sum form computed in machine ints says "fits" while the model, and the difference form of the code, say it
+    does not: granting it would put `used` above the capacity.  So `go_int_arithmetic_is_model_arithmetic` is a fact
+    about the way the code writes the test, not about any way of writing it. -/
+theorem sum_form_of_the_test_wraps :
+    ∃ s amt, Reachable maxInt s ∧ s.capHi ≤ maxInt ∧ amt ≤ capOf s 0 true ∧
+      fitsSumGo s.cap s.used (s.chain 0) amt = true ∧ fits s.cap s.used (s.chain 0) amt = false ∧
+      fitsGo s.cap s.used (s.chain 0) amt = false ∧ s.used 0 + amt > s.cap 0 := by
+  refine ⟨sumWitness, maxInt - 5, sumWitness_reachable, sumWitness_facts.1, ?_, sumWitness_wraps.1, sumWitness_wraps.2.1,
+          sumWitness_wraps.2.2, ?_⟩
+  · decide
+  · decide
+
+/-- **an error only for a cause** (the converse of `immediate_errors` / `close_fails_pending` for requests that had to
+    wait): in every interleaving, whichever step of whichever goroutine answers a request that is in the queue, the
+    answer is nil, or an error because its limiter IS closed at that moment (it was closed, or became closed through an
+    ancestor or root `Close`, while the request waited), or an error because its amount is above the smallest capacity
+    then in force along its chain.  A request on a limiter that stays open, within the caps of its chain, is never
+    failed. -/
+theorem queued_request_fails_only_for_cause (c : Nat) (s s' : S) (h : Reachable c s) (st : Step s s') (r : Req)
+    (hr : r ∈ s.waiting) (a : Ans) (ha : (r.id, a) ∈ s'.answered) :
+    a = .ok ∨ (a = .errClosed ∧ s.closed r.lim = true) ∨
+    (a = .errCap ∧ s.closed r.lim = false ∧ r.amt > capOf s r.lim true) :=
+  queued_answer_cause h st r hr a ha
+
+/-- **a send on an answer channel never blocks**: the channel returned by `Use` has room for one value, and over the
+    whole run — any interleaving — at most one value is ever sent on it; a request still in the queue has received
+    none.  This is why the model may fuse the body of a call (or of a tick, which answers under the lock) with the
+    unlock that follows it: the holder of the lock does nothing that can block in between. -/
+theorem answer_send_never_blocks (c : Nat) (s : S) (h : Reachable c s) (id : Nat) :
+    (s.answered.map (·.1)).count id ≤ 1 ∧ (∀ r ∈ s.waiting, ∀ a, (r.id, a) ∉ s.answered) := by
+  refine ⟨?_, fun r hr a => queued_not_answered h r hr a⟩
+  have := answer_exactly_once c s h id
+  split at this <;> omega
+
+/-- **the ticker's guard `c.root.capacity-c.root.used > 0` is redundant** on every reachable state: only amounts ≥ 1 are
+    ever queued and the root is on every chain, so the service loop without the guard (`RL.serviceNG`; the rewrite
+    `seeded/control-ind6-c16` drops it) answers, charges and keeps exactly what the loop with the guard does -/
+theorem root_guard_redundant (c : Nat) (s : S) (h : Reachable c s) (p : Nat) (used : Nat → Nat) :
+    service s.cap s.chain s.closed p used s.waiting = serviceNG s.cap s.chain s.closed p used s.waiting := by
+  apply service_guard_redundant
+  intro r hr
+  have q := queueOk h r hr
+  exact ⟨q.2.1, (tree h).root r.lim q.1⟩
+
+/-- **the guarded state changes only under the lock** (the model-side counterpart of `C16Lock.accesses_under_the_lock`,
+    which decides the same about the Go source on every run): a step of `RL.Step` that changes the queue, the shape of
+    the tree, or any limiter's capacity / used / last / closed is taken by the goroutine that holds `controller.lock` —
+    the ticker goroutine inside one of its two critical sections, the goroutine in root `Close` between its `Lock()`
+    and the marking, or the caller that took the lock with `apiLock`; with the lock free no step changes any of them.
+    Together with `lock_discipline` (one holder at a time; the goroutine blocked on `done` is not the holder) this is the
+    lock / body / unlock structure of `RL.Step` that the extracted tables justify for the code:
+    `C16Lock.accesses_under_the_lock` (every access under the lock on all paths), `C16Lock.no_reacquisition` (one
+    bracket per call), `C16Lock.blocking_channel_operations_unlocked` (the send / receive on `done` outside it). -/
+theorem guarded_state_changes_only_under_the_lock (c : Nat) (s s' : S) (h : Reachable c s) (st : Step s s') :
+    (s.holder = .free → GuardedEq s s') ∧
+    (¬ GuardedEq s s' →
+      (s.holder = .ticker ∧ (s.tpc = .tcrit ∨ s.tpc = .dcrit)) ∨ (s.holder = .closer ∧ s.cpc = .crit) ∨
+      (s.holder = .api ∧ s.tpc ≠ .tcrit ∧ s.tpc ≠ .dcrit ∧ s.cpc ≠ .crit ∧ s.cpc ≠ .marked)) := by
+  obtain ⟨h1, h2, _⟩ := lockInv h
+  have key := guarded_change st
+  constructor
+  · intro hf
+    rcases key with k | k | k | k
+    · exact k
+    · rw [hf] at k; cases k.1
+    · rw [hf] at k; cases k.1
+    · rw [hf] at k; cases k
+  · intro hne
+    rcases key with k | k | k | k
+    · exact absurd k hne
+    · exact Or.inl k
+    · exact Or.inr (Or.inl k)
+    · refine Or.inr (Or.inr ⟨k, ?_, ?_, ?_, ?_⟩)
+      · intro ht; have := h1.mpr (Or.inl ht); rw [k] at this; cases this
+      · intro ht; have := h1.mpr (Or.inr (Or.inr (Or.inl ht))); rw [k] at this; cases this
+      · intro hc; have := h2.mpr (Or.inl hc); rw [k] at this; cases this
+      · intro hc; have := h2.mpr (Or.inr hc); rw [k] at this; cases this
+
+/-- **a limiter that became closed through root `Close` fails every later request**: from the moment root `Close` has
+    marked the tree — before it has even released the lock or handed over `done`, in every interleaving — whoever gets
+    the lock as a caller of `Use` on ANY limiter of the tree, with any non-negative amount, is answered "closed" at
+    once: nothing is queued, nothing is charged -/
+theorem use_after_root_close_fails (c : Nat) (s : S) (h : Reachable c s)
+    (hc : s.cpc = .marked ∨ s.cpc = .send ∨ TDone s) (l amt : Nat) (hl : l < s.n) (ha : s.holder = .api) :
+    micro s (.use l amt) = unlock (answer s .errClosed) ∧
+    (micro s (.use l amt)).waiting = s.waiting ∧ (micro s (.use l amt)).used = s.used := by
+  have e := use_on_closed_fails s l amt hl ha (root_close_closes_all c s h hc l)
+  rw [e]
+  exact ⟨rfl, rfl, rfl⟩
 
 /-! non-vacuity: a concrete run (root cap 5, child cap 9 above its parent): the second `Use(3)` on the child waits
     although the child has room, is served by the tick, and `LastUsed` of the root reports 4. -/
